@@ -824,8 +824,8 @@ impl Crit {
         let v = value?;
         Some(self.exact.map_or(true, |e| v == e) && self.min.map_or(true, |m| v >= m) && self.max.map_or(true, |m| v <= m))
     }
-    fn json(&self) -> Value {
-        json!({"template": if self.tmpl { json!(CRIT_TEMPLATE) } else { Value::Null }, "exact": self.exact, "min": self.min, "max": self.max})
+    fn json(&self, text: &str) -> Value {
+        json!({"template": if self.tmpl { json!(text) } else { Value::Null }, "exact": self.exact, "min": self.min, "max": self.max})
     }
     fn build(&self, t: &ScriptTemplate) -> MatchCriteria {
         let mut c = MatchCriteria::new();
@@ -864,10 +864,20 @@ impl Crit {
 
 const CRIT_TEMPLATE: &str = "OP_DUP OP_HASH160 OP_PUBKEYHASH OP_EQUALVERIFY OP_CHECKSIG";
 
+struct CritScript {
+    script: Script,
+    /// does the reference say it matches the criteria template; None = the statement does not decide
+    matches: Option<bool>,
+    bytes: Vec<u8>,
+    /// (token kind, element class) the verdict hinges on: names the root cause when the library's
+    /// `is_match` on this script alone already disagrees with the reference
+    hinge: (&'static str, &'static str),
+}
+
 struct CritEnv {
     tmpl: ScriptTemplate,
-    /// (script, does the reference say it matches CRIT_TEMPLATE, bytes)
-    scripts: Vec<(Script, bool, Vec<u8>)>,
+    text: String,
+    scripts: Vec<CritScript>,
 }
 
 fn crit_env(env: &c17::Env) -> CritEnv {
@@ -880,12 +890,12 @@ fn crit_env(env: &c17::Env) -> CritEnv {
         let elr: Vec<&Elem> = els.iter().collect();
         let m = matches!(ref_match(&ttr, &elr), RefRes::Match(_));
         let b = rs::serialize(&toks);
-        (Script::from_bytes(&b).expect("criteria script parses"), m, b)
+        CritScript { script: Script::from_bytes(&b).expect("criteria script parses"), matches: Some(m), bytes: b, hinge: ("OP_PUBKEYHASH", "push") }
     };
     let p2pkh = |h: Vec<u8>| vec![Tok::Op(0x76), Tok::Op(0xa9), rs::minimal_push(&h), Tok::Op(0x88), Tok::Op(0xac)];
     let scripts = vec![mk(p2pkh(pattern(2, 20))), mk(p2pkh(pattern(2, 19))), mk(vec![Tok::Op(0x00), Tok::Op(0x6a), rs::minimal_push(&[0xaa, 0xbb])]), mk(p2pkh(pattern(5, 20)))];
-    assert!(scripts[0].1 && !scripts[1].1 && !scripts[2].1 && scripts[3].1);
-    CritEnv { tmpl, scripts }
+    assert!(scripts[0].matches == Some(true) && scripts[1].matches == Some(false) && scripts[2].matches == Some(false) && scripts[3].matches == Some(true));
+    CritEnv { tmpl, text: CRIT_TEMPLATE.to_string(), scripts }
 }
 
 #[derive(Clone, Copy, PartialEq)]
@@ -907,9 +917,9 @@ fn build_tx(side: Side, slots: &[(usize, Option<u64>)], ce: &CritEnv) -> Transac
     let mut tx = Transaction::new(1, 0);
     for (i, (si, v)) in slots.iter().enumerate() {
         match side {
-            Side::Outputs => tx.add_output(&TxOut::new(v.unwrap_or(0), &ce.scripts[*si].0)),
+            Side::Outputs => tx.add_output(&TxOut::new(v.unwrap_or(0), &ce.scripts[*si].script)),
             Side::Inputs => {
-                let mut inp = TxIn::new(&[i as u8 + 1; 32], i as u32, &ce.scripts[*si].0, None);
+                let mut inp = TxIn::new(&[i as u8 + 1; 32], i as u32, &ce.scripts[*si].script, None);
                 if let Some(v) = v {
                     inp.set_satoshis(*v);
                 }
@@ -932,7 +942,16 @@ fn eval_criteria(side: Side, slots: &[(usize, Option<u64>)], crit: Crit, ce: &Cr
     // reference index list; None = the statement does not decide (absent value under a value criterion)
     let mut want = vec![];
     for (i, (si, v)) in slots.iter().enumerate() {
-        match crit.accepts(ce.scripts[*si].1, *v) {
+        let sm = match ce.scripts[*si].matches {
+            Some(m) => m,
+            None if !crit.tmpl => false, // not looked at
+            None => {
+                acc.bump("excluded_undecided/criteria template against a script the reference matcher leaves undecided", 1);
+                acc.outcome(b"c-excluded-script");
+                return;
+            }
+        };
+        match crit.accepts(sm, *v) {
             Some(true) => want.push(i),
             Some(false) => {}
             None => {
@@ -947,7 +966,7 @@ fn eval_criteria(side: Side, slots: &[(usize, Option<u64>)], crit: Crit, ce: &Cr
     acc.transitions += 2;
     acc.traces += 1;
     acc.nontrivial_structural += 1;
-    let input = || json!({"side": side.name(), "slots": slots.iter().map(|(si, v)| json!({"script_hex": hx(&ce.scripts[*si].2), "value": v})).collect::<Vec<_>>(), "criteria": crit.json()});
+    let input = || json!({"side": side.name(), "slots": slots.iter().map(|(si, v)| json!({"script_hex": hx(&ce.scripts[*si].bytes), "value": v})).collect::<Vec<_>>(), "criteria": crit.json(&ce.text)});
     let got = lib_select(side, &tx, &c);
     let mut found = Found::new(case);
     match &got {
@@ -961,18 +980,30 @@ fn eval_criteria(side: Side, slots: &[(usize, Option<u64>)], crit: Crit, ce: &Cr
                 // which single criterion is judged wrongly for the first index whose membership differs
                 let i = (0..slots.len()).find(|i| list.contains(i) != want.contains(i)).unwrap_or(0);
                 let mut fields = vec![];
+                let mut matcher_key = None;
                 if i < slots.len() {
+                    let cs = &ce.scripts[slots[i].0];
                     for (name, single) in crit.single_fields() {
                         let tx1 = build_tx(side, &slots[i..i + 1], ce);
                         let l1 = lib_select(side, &tx1, &single.build(&ce.tmpl)).map(|r| !r.0.is_empty()).ok();
                         acc.transitions += 2;
-                        if l1 != single.accepts(ce.scripts[slots[i].0].1, slots[i].1) {
+                        if l1 != single.accepts(cs.matches.unwrap_or(false), slots[i].1) {
                             fields.push(name);
+                        }
+                    }
+                    // is the template criterion wrong because the matcher itself already judges this script wrongly?
+                    if fields == ["template"] {
+                        acc.transitions += 1;
+                        if let (Some(m), Ok(l)) = (cs.matches, guard(|| cs.script.is_match(&ce.tmpl))) {
+                            if l != m {
+                                matcher_key = Some(format!("C19/matches/token={}/kind={}/elem={}", cs.hinge.0, if m { "missing-match" } else { "spurious-match" }, cs.hinge.1));
+                            }
                         }
                     }
                 }
                 let f = if fields.is_empty() { "combination".to_string() } else { fields.join("+") };
-                found.add(acc, &format!("C19/match_{}s/kind=wrong-indices/field={}", side.name(), f), || format!("library {:?} reference {:?}", list, want));
+                let key = matcher_key.unwrap_or_else(|| format!("C19/match_{}s/kind=wrong-indices/field={}", side.name(), f));
+                found.add(acc, &key, || format!("match_{}s: library {:?} reference {:?}", side.name(), list, want));
             }
             if *first != want.first().copied() {
                 let k = if *first == list.first().copied() { "wrong-index-same-as-list" } else { "not-first-of-the-list" };
@@ -1034,7 +1065,7 @@ fn criteria_spaces(v: &mut Vec<Space>, side: Side, tier: Tier, ce: Arc<CritEnv>)
                 return;
             }
             if case.idx == 12345 {
-                acc.sample(case.idx, || json!({"space": format!("{}-bounds", side.name()), "value": value, "criteria": crit.json()}));
+                acc.sample(case.idx, || json!({"space": format!("{}-bounds", side.name()), "value": value, "criteria": crit.json(&ce.text)}));
             }
             eval_criteria(side, &[(c[1] as usize, value)], crit, &ce, acc, case);
         }));
@@ -1065,10 +1096,325 @@ fn criteria_spaces(v: &mut Vec<Space>, side: Side, tier: Tier, ce: Arc<CritEnv>)
                 })
                 .collect();
             if c[0] == 2 && c[1] == 15 && c[2] == 0 && c[3] == 300 {
-                acc.sample(case.idx, || json!({"space": format!("{}-selection", side.name()), "slots": slots.iter().map(|s| json!({"script_matches": s.0 == 0, "value": s.1})).collect::<Vec<_>>(), "criteria": crit.json()}));
+                acc.sample(case.idx, || json!({"space": format!("{}-selection", side.name()), "slots": slots.iter().map(|s| json!({"script_matches": s.0 == 0, "value": s.1})).collect::<Vec<_>>(), "criteria": crit.json(&ce.text)}));
             }
             eval_criteria(side, &slots, crit, &ce, acc, case);
         }));
+    }
+}
+
+// ---------------------------------------------------------------------------
+// signature / public-key shape products
+// ---------------------------------------------------------------------------
+
+/// Byte lengths of the synthetic r / s values (each with its top bit clear and set, so the DER
+/// INTEGER is `len` or `len + 1` bytes long).
+fn shape_lens(tier: Tier) -> Vec<usize> {
+    if tier.is_thorough() {
+        vec![1, 2, 16, 30, 31, 32]
+    } else {
+        vec![1, 31, 32]
+    }
+}
+
+/// What follows the DER part: nothing, each standard flag, flag-like and non-flag bytes, two flags.
+fn shape_tails() -> Vec<Vec<u8>> {
+    let mut v: Vec<Vec<u8>> = vec![vec![]];
+    v.extend(STD_FLAGS.iter().map(|f| vec![*f]));
+    v.extend([vec![0x40u8], vec![0x80], vec![0x00], vec![0x05], vec![0xff], vec![0x41, 0x41]]);
+    v
+}
+
+/// Final bytes of s: one that is no sighash flag and one that is (pure DER must be taken as is).
+const SHAPE_S_LAST: [u8; 2] = [0x7b, 0x41];
+
+/// A `len`-byte big-endian value below n with the given top bit and last byte.
+/// `high_fill`: fill with ff below a leading 7f (only used for the 32-byte, top-bit-clear, s > n/2 value).
+fn shape_value(len: usize, top_set: bool, last: u8, high_fill: bool) -> Vec<u8> {
+    if len == 1 {
+        return vec![if top_set { 0x80 | last } else { last & 0x7f }];
+    }
+    let mut v = if high_fill { vec![0xffu8; len] } else { pattern(4, len) };
+    v[0] = match (top_set, high_fill) {
+        (true, _) => 0xd6,
+        (false, true) => 0x7f,
+        (false, false) => 0x5a,
+    };
+    v[len - 1] = last;
+    v
+}
+
+pub struct SigShape {
+    pub elem: Elem,
+    pub push_len: usize,
+}
+
+/// Full product r shape x s shape x final byte of s x tail.
+pub fn sig_shapes(tier: Tier) -> Vec<SigShape> {
+    let n = rsecp::n();
+    let half = &n >> 1u32;
+    let lens = shape_lens(tier);
+    // (len, top bit set, high fill)
+    let mut r_shapes = vec![];
+    let mut s_shapes = vec![];
+    for l in &lens {
+        for top in [false, true] {
+            r_shapes.push((*l, top, false));
+            s_shapes.push((*l, top, false));
+            if *l == 32 && !top {
+                s_shapes.push((*l, top, true));
+            }
+        }
+    }
+    let tails = shape_tails();
+    let mut out = vec![];
+    for (rl, rtop, _) in &r_shapes {
+        let rb = shape_value(*rl, *rtop, 0x3c, false);
+        let r = rsecp::from_be(&rb);
+        for (sl, stop, sfill) in &s_shapes {
+            for last in SHAPE_S_LAST {
+                let sb = shape_value(*sl, *stop, last, *sfill);
+                let sv = rsecp::from_be(&sb);
+                assert!(r < n && sv < n && r.bits() > 0 && sv.bits() > 0);
+                let high = sv > half;
+                let der = rsecp::der_encode(&r, &sv);
+                assert_eq!(der.len(), 6 + rl + *rtop as usize + sl + *stop as usize);
+                for tail in &tails {
+                    let mut bytes = der.clone();
+                    bytes.extend_from_slice(tail);
+                    let pure = der_valid(&bytes);
+                    let class = match (sig_ok(&bytes), high) {
+                        (Tri::Yes, _) if pure && (STD_FLAGS.contains(bytes.last().unwrap()) || [0x40u8, 0x80].contains(bytes.last().unwrap())) => "sig-der-ending-in-flag-valued-byte",
+                        (Tri::Yes, false) if pure => "sig-der",
+                        (Tri::Yes, true) if pure => "sig-der-high-s",
+                        (Tri::Yes, false) => "sig-der+flag",
+                        (Tri::Yes, true) => "sig-der-high-s+flag",
+                        (Tri::Amb(_), _) => "sig-der+unusual-byte",
+                        (Tri::No, _) => "sig-malformed",
+                    };
+                    let label = format!(
+                        "sig:shape r={}B{} s={}B{}{} s-ends-{:02x} tail={} [{}-byte push]",
+                        rl,
+                        if *rtop { "+pad" } else { "" },
+                        sl,
+                        if *stop { "+pad" } else { "" },
+                        if high { " high-S" } else { " low-S" },
+                        sb[sb.len() - 1],
+                        if tail.is_empty() { "none".to_string() } else { hex::encode(tail) },
+                        bytes.len()
+                    );
+                    let push_len = bytes.len();
+                    out.push(SigShape { elem: Elem::new(&label, class, vec![rs::minimal_push(&bytes)]), push_len });
+                }
+            }
+        }
+    }
+    out
+}
+
+pub const KEY_TAGS: [u8; 10] = [0x00, 0x01, 0x02, 0x03, 0x04, 0x05, 0x06, 0x07, 0x80, 0xff];
+pub const KEY_LENS: [usize; 9] = [1, 2, 32, 33, 34, 64, 65, 66, 75];
+
+/// Full product tag x total length x coordinate source.
+pub fn key_shapes() -> Vec<Elem> {
+    let g = rsecp::g();
+    let g2 = rsecp::add(&g, &g);
+    let xy = |p: &rsecp::Point| match p {
+        rsecp::Point::Affine { x, y } => {
+            let mut v = rsecp::be32(x).to_vec();
+            v.extend_from_slice(&rsecp::be32(y));
+            v
+        }
+        _ => unreachable!(),
+    };
+    let mut off_x = BigUint::from(1u32);
+    while rsecp::lift_x(&off_x, false).is_some() {
+        off_x += 1u32;
+    }
+    let mut off = rsecp::be32(&off_x).to_vec();
+    off.extend_from_slice(&[0u8; 32]);
+    let sources: [(&str, Vec<u8>); 3] = [("G", xy(&g)), ("2G", xy(&g2)), ("x-not-on-curve", off)];
+    let mut out = vec![];
+    for tag in KEY_TAGS {
+        for len in KEY_LENS {
+            for (name, coords) in &sources {
+                // tag, then the coordinates cut or zero-padded to the length
+                let mut bytes = vec![tag];
+                bytes.extend(coords.iter().copied().chain(std::iter::repeat(0u8)).take(len - 1));
+                let well_formed = (len == 33 && (tag == 2 || tag == 3)) || (len == 65 && tag == 4);
+                let class = match (rsecp::decode_point(&bytes).is_some(), well_formed) {
+                    (true, _) => "key-valid",
+                    (false, true) => "key-off-curve",
+                    (false, false) => "key-bad-format",
+                };
+                out.push(Elem::new(&format!("key:shape tag={:02x} len={} coordinates={}", tag, len, name), class, vec![rs::minimal_push(&bytes)]));
+            }
+        }
+    }
+    out
+}
+
+fn payload(e: &Elem) -> Vec<u8> {
+    match e.toks.as_slice() {
+        [Tok::Push(d)] | [Tok::PushData(_, d)] => d.clone(),
+        _ => vec![],
+    }
+}
+
+/// Tokens every shaped element is put against: the typed tokens, OP_DATA, the element's own
+/// bytes as exact data, and length comparisons around the given bounds.
+fn shape_tokens(bounds: &[usize]) -> Vec<TT> {
+    let mut v = vec![TT::Sig, TT::PubKey, TT::Pkh, TT::Any];
+    for c in Cmp::ALL {
+        for n in bounds {
+            v.push(TT::Len(c, *n));
+        }
+    }
+    v
+}
+
+const SIG_CRIT_TEMPLATE: &str = "OP_SIG OP_PUBKEY";
+
+/// Slot patterns of the selection space: 1..=max slots, exactly one of them the shaped script (2),
+/// the others a script that does not match (0) or a typical signature script (1).
+fn sel_patterns(max: usize) -> Vec<Vec<usize>> {
+    let mut v = vec![];
+    for l in 1..=max {
+        for pos in 0..l {
+            for mask in 0..(1u32 << (l - 1)) {
+                let mut p = vec![];
+                let mut k = 0;
+                for i in 0..l {
+                    if i == pos {
+                        p.push(2);
+                    } else {
+                        p.push(((mask >> k) & 1) as usize);
+                        k += 1;
+                    }
+                }
+                v.push(p);
+            }
+        }
+    }
+    v
+}
+
+fn shape_spaces(v: &mut Vec<Space>, env: &Arc<c17::Env>, tier: Tier) {
+    let shapes = Arc::new(sig_shapes(tier));
+    let keys = Arc::new(key_shapes());
+    let ns = shapes.len() as u64;
+    let nk = keys.len() as u64;
+    // 6. every signature shape against the typed / length / own-data tokens
+    {
+        let (e, sh) = (env.clone(), shapes.clone());
+        let toks = shape_tokens(&[72, 73]);
+        let nt = toks.len() as u64 + 1;
+        v.push(Space::new("sig-shape-x-token", ns * nt, move |case, acc| {
+            let c = coords(case.idx, &[ns, nt]);
+            let el = &sh[c[0] as usize].elem;
+            let own;
+            let t = match toks.get(c[1] as usize) {
+                Some(t) => t,
+                None => {
+                    own = TT::Data(payload(el));
+                    &own
+                }
+            };
+            if case.idx == 3 * nt || case.idx == ns * nt - nt {
+                acc.sample(case.idx, || json!({"space": "sig-shape-x-token", "template": t.render(&e), "element": el.label}));
+            }
+            eval_match(&[t], &[el], &e, acc, case);
+        }));
+    }
+    // 7. every public-key shape against the typed / length / own-data tokens
+    {
+        let (e, ks) = (env.clone(), keys.clone());
+        let toks = shape_tokens(&[33, 65]);
+        let nt = toks.len() as u64 + 1;
+        v.push(Space::new("key-shape-x-token", nk * nt, move |case, acc| {
+            let c = coords(case.idx, &[nk, nt]);
+            let el = &ks[c[0] as usize];
+            let own;
+            let t = match toks.get(c[1] as usize) {
+                Some(t) => t,
+                None => {
+                    own = TT::Data(payload(el));
+                    &own
+                }
+            };
+            if case.idx == 100 * nt + 1 {
+                acc.sample(case.idx, || json!({"space": "key-shape-x-token", "template": t.render(&e), "element": el.label}));
+            }
+            eval_match(&[t], &[el], &e, acc, case);
+        }));
+    }
+    // 8. the unlocking-script form: OP_SIG OP_PUBKEY against (signature shape, key shape)
+    {
+        let (e, sh, ks) = (env.clone(), shapes.clone(), keys.clone());
+        // thorough: every key shape; quick: the 33- and 65-byte ones (all tags, all coordinate sources)
+        let kidx: Vec<usize> = (0..keys.len()).filter(|i| tier.is_thorough() || keys[*i].label.contains("len=33 ") || keys[*i].label.contains("len=65 ")).collect();
+        let nki = kidx.len() as u64;
+        let tmpl = [TT::Sig, TT::PubKey];
+        v.push(Space::new("sig-shape-x-key-shape", ns * nki, move |case, acc| {
+            let c = coords(case.idx, &[ns, nki]);
+            let el = [&sh[c[0] as usize].elem, &ks[kidx[c[1] as usize]]];
+            if case.idx == 5 * nki + 7 {
+                acc.sample(case.idx, || json!({"space": "sig-shape-x-key-shape", "template": SIG_CRIT_TEMPLATE, "elements": el.iter().map(|x| x.label.clone()).collect::<Vec<_>>()}));
+            }
+            eval_match(&[&tmpl[0], &tmpl[1]], &el, &e, acc, case);
+        }));
+    }
+    // 9. selection by an OP_SIG template: one slot carries the shaped signature
+    {
+        let tmpl = ScriptTemplate::from_asm_string(SIG_CRIT_TEMPLATE).expect("signature criteria template parses");
+        let tts = [TT::Sig, TT::PubKey];
+        let gkey = Elem::new("key:G compressed", "key-valid", vec![rs::minimal_push(&rsecp::encode_point(&rsecp::g(), true))]);
+        let typical = {
+            let n = rsecp::n();
+            let r = rsecp::from_be(&pattern(4, 32)) % &n;
+            let s = ((rsecp::from_be(&pattern(7, 32)) % &n) >> 8u32 << 8u32) + BigUint::from(0x7bu32);
+            let mut b = rsecp::der_encode(&r, &s);
+            b.push(0x41);
+            Elem::new("sig:der(typical)+41", "sig-der+flag", vec![rs::minimal_push(&b)])
+        };
+        let mk = |els: &[&Elem], hinge: (&'static str, &'static str)| {
+            let m = match ref_match(&[&tts[0], &tts[1]], els) {
+                RefRes::Match(_) => Some(true),
+                RefRes::NoMatch => Some(false),
+                RefRes::Amb(_) => None,
+            };
+            let toks: Vec<Tok> = els.iter().flat_map(|e| e.toks.iter().cloned()).collect();
+            let b = rs::serialize(&toks);
+            CritScript { script: Script::from_bytes(&b).expect("criteria script parses"), matches: m, bytes: b, hinge }
+        };
+        let op1 = Elem::new("OP_1", "opcode", vec![Tok::Op(0x51)]);
+        let op2 = Elem::new("OP_2", "opcode", vec![Tok::Op(0x52)]);
+        let envs: Vec<CritEnv> = shapes
+            .iter()
+            .map(|sh| CritEnv {
+                tmpl: tmpl.clone(),
+                text: SIG_CRIT_TEMPLATE.to_string(),
+                scripts: vec![mk(&[&op1, &op2], ("opcode-name", "opcode")), mk(&[&typical, &gkey], ("OP_SIG", "sig-der+flag")), mk(&[&sh.elem, &gkey], ("OP_SIG", sh.elem.class))],
+            })
+            .collect();
+        assert!(envs[0].scripts[0].matches == Some(false) && envs[0].scripts[1].matches == Some(true));
+        let envs = Arc::new(envs);
+        let pats = Arc::new(sel_patterns(if tier.is_thorough() { 4 } else { 3 }));
+        let np = pats.len() as u64;
+        for side in [Side::Outputs, Side::Inputs] {
+            let (envs, pats, sh) = (envs.clone(), pats.clone(), shapes.clone());
+            let name = format!("sig-shape-{}-selection", side.name());
+            let nm = name.clone();
+            v.push(Space::new(&name, ns * np, move |case, acc| {
+                let c = coords(case.idx, &[ns, np]);
+                let ce = &envs[c[0] as usize];
+                let slots: Vec<(usize, Option<u64>)> = pats[c[1] as usize].iter().enumerate().map(|(i, s)| (*s, if side == Side::Outputs { Some(1000 + i as u64) } else { None })).collect();
+                if case.idx == 7 * np + 9 {
+                    acc.sample(case.idx, || json!({"space": nm, "slots": pats[c[1] as usize].iter().map(|s| ["OP_1 OP_2", "typical signature + key", "shaped signature + key"][*s]).collect::<Vec<_>>(), "shaped_signature": sh[c[0] as usize].elem.label, "criteria_template": SIG_CRIT_TEMPLATE}));
+                }
+                eval_criteria(side, &slots, Crit { tmpl: true, exact: None, min: None, max: None }, ce, acc, case);
+            }));
+        }
     }
 }
 
@@ -1163,15 +1509,21 @@ pub fn spaces(tier: Tier) -> Vec<Space> {
     let ce = Arc::new(crit_env(&env));
     criteria_spaces(&mut v, Side::Outputs, tier, ce.clone());
     criteria_spaces(&mut v, Side::Inputs, tier, ce);
+    // 6.-9. signature / public-key shape products
+    shape_spaces(&mut v, &env, tier);
     v
 }
 
 fn run(ctx: &Ctx) -> Report {
     let mut r = Report::new(
-        "templates as reference token lists rendered to text and parsed by ScriptTemplate::from_asm_string, scripts as reference token lists serialised and parsed by Script::from_bytes: every template token x every script element; every token pair x every element pair over reduced alphabets; element counts differing by one (1 token vs 0/2 elements, 2 tokens vs 1/3 elements); verdict, extracted (kind, payload) list and is_match compared with the reference matcher. Self-match: the empty script, every element of the C17 single alphabet and every ordered pair of the C17 pair alphabet against ScriptTemplate::from_script of itself. Criteria: one output/input x every value x script x template present/absent x exact/min/max each absent or any value of the bound set; 0..4 outputs/inputs over {matching, near-miss script} x {b-1,b,b+1[,absent]} x 16 presence combinations x 4 bounds; match_outputs/match_inputs vs reference index list, match_output/match_input vs its first element. Non-trivial = reference decides the case and the library result was compared; cases are distinct by construction.",
+        "templates as reference token lists rendered to text and parsed by ScriptTemplate::from_asm_string, scripts as reference token lists serialised and parsed by Script::from_bytes: every template token x every script element; every token pair x every element pair over reduced alphabets; element counts differing by one (1 token vs 0/2 elements, 2 tokens vs 1/3 elements); verdict, extracted (kind, payload) list and is_match compared with the reference matcher. Self-match: the empty script, every element of the C17 single alphabet and every ordered pair of the C17 pair alphabet against ScriptTemplate::from_script of itself. Criteria: one output/input x every value x script x template present/absent x exact/min/max each absent or any value of the bound set; 0..4 outputs/inputs over {matching, near-miss script} x {b-1,b,b+1[,absent]} x 16 presence combinations x 4 bounds; match_outputs/match_inputs vs reference index list, match_output/match_input vs its first element. Signature / key shapes: the full product {r length} x {top bit of r} x {s length} x {top bit of s, and for 32 bytes s below / above n/2} x {final byte of s flag-valued or not} x {no tail, each of the 12 standard flags, 40, 80, 00, 05, ff, two flags} of synthetic DER signatures (push lengths 8..74) and the full product {tag} x {total length} x {coordinates of G, 2G, an x not on the curve} of public-key pushes, each against OP_SIG, OP_PUBKEY, OP_PUBKEYHASH, OP_DATA, OP_DATA<cmp>N around the maximal lengths and its own bytes as exact data; OP_SIG OP_PUBKEY against every (signature shape, key shape) pair; match_outputs/match_inputs (and match_output/match_input) with the template criterion OP_SIG OP_PUBKEY over 1..3 slots, exactly one carrying the shaped signature, the others a non-matching or a typical signature script. Non-trivial = reference decides the case and the library result was compared; cases are distinct by construction.",
     );
     let env = c17::env();
     let al = alphabet(&env, ctx.tier);
+    let shapes = sig_shapes(ctx.tier);
+    let mut shape_classes = shapes.iter().map(|s| s.elem.class).collect::<Vec<_>>();
+    shape_classes.sort();
+    shape_classes.dedup();
     r.bounds = json!({
         "template_tokens": al.tokens.iter().map(|t| t.render(&env)).collect::<Vec<_>>(),
         "script_elements": al.elems.iter().map(|e| format!("{} [{}]", e.label, e.class)).collect::<Vec<_>>(),
@@ -1182,11 +1534,27 @@ fn run(ctx: &Ctx) -> Report {
         "criteria_values": all_values().iter().map(|b| b.to_string()).collect::<Vec<_>>(),
         "criteria_template": CRIT_TEMPLATE,
         "max_outputs_inputs": if ctx.tier.is_thorough() { 5 } else { 4 },
+        "sig_shape_value_byte_lengths_r_and_s": shape_lens(ctx.tier),
+        "sig_shape_top_bit": ["clear", "set (DER integer gets a 00 pad byte)"],
+        "sig_shape_s_extra": "32-byte s with top bit clear both below n/2 (low-S) and above n/2 (high-S)",
+        "sig_shape_s_final_byte": SHAPE_S_LAST.iter().map(|b| format!("{:02x}", b)).collect::<Vec<_>>(),
+        "sig_shape_tails": shape_tails().iter().map(|t| if t.is_empty() { "none".to_string() } else { hex::encode(t) }).collect::<Vec<_>>(),
+        "sig_shape_elements": shapes.len(),
+        "sig_shape_push_lengths": [shapes.iter().map(|s| s.push_len).min(), shapes.iter().map(|s| s.push_len).max()],
+        "sig_shape_classes": shape_classes,
+        "sig_shape_length_tokens_N": [72, 73],
+        "key_shape_tags": KEY_TAGS.iter().map(|b| format!("{:02x}", b)).collect::<Vec<_>>(),
+        "key_shape_total_lengths": KEY_LENS,
+        "key_shape_coordinates": ["G", "2G", "x-not-on-curve (first x >= 1 for which x^3+7 is no square)"],
+        "key_shape_length_tokens_N": [33, 65],
+        "sig_selection_template": SIG_CRIT_TEMPLATE,
+        "sig_selection_max_slots": if ctx.tier.is_thorough() { 4 } else { 3 },
         "deviation_bound": "n/a (full enumeration)"
     });
     r.assumptions.push("extracted values are the pushes matched by OP_DATA / OP_DATA<op>N / OP_SIG / OP_PUBKEY / OP_PUBKEYHASH tokens (as in the library's documented example); pushes matched by exact hex data are not expected in the list".into());
     r.assumptions.push("excluded as undecided by the statement (counted in counters excluded_undecided/*): OP_0 against OP_DATA-family tokens it would satisfy as an empty push; non-minimal pushes against exact-data/OP_SIG/OP_PUBKEY/OP_PUBKEYHASH tokens; DER followed by a byte outside the twelve standard sighash flags; scripts with a conditional block whenever counting the block as one element and counting its opcodes give different answers; inputs without satoshis under a value criterion".into());
     r.assumptions.push("exact-data template tokens whose hex text is 10..16 are not used in direct pairs (alias/hex ambiguity of the grammar, see C17); the self-match space covers them because the statement demands self-match".into());
+    r.assumptions.push("signature shapes use synthetic (r, s) values (no key signed anything): the OP_SIG token is about decoding, not verification; whether s is above n/2 (high-S) is not a criterion of the statement, so high-S signatures are expected to match".into());
     r.assumptions.push("inputs carry no locking script, so the finalised script is the unlocking script".into());
     run_spaces(ctx, &mut r, spaces(ctx.tier));
     r
